@@ -145,19 +145,6 @@ func checkCrossProc(c Case, ev *evid.Collector) (*evid.Violation, error) {
 	return nil, nil
 }
 
-func dedup(sorted []string) []string {
-	out := []string{}
-	for i, k := range sorted {
-		if i == 0 || k != sorted[i-1] {
-			out = append(out, k)
-		}
-	}
-	if len(out) == 0 {
-		return []string{"(no-options)"}
-	}
-	return out
-}
-
 func TestVerifCrossProc(t *testing.T) {
 	if os.Getenv("SOURCE_DATE_EPOC") == "" {
 		t.Skip("SOURCE_DATE_EPOC is not pinned")
